@@ -28,7 +28,22 @@ type PanicInfo struct {
 	Stack string `json:"stack,omitempty"`
 }
 
-func (p *PanicInfo) Key() string { return p.Class + "@" + p.Frame }
+// Key identifies a crash: class + innermost cog function for panics; class +
+// package for runaway recursion and hangs (which member of a recursion cycle
+// is on top when the budget runs out is an accident, and cyclic inputs make
+// most recursive formatters of a package overflow alike).
+func (p *PanicInfo) Key() string {
+	if p.Class == "stack-overflow" || p.Class == "hang" {
+		f := p.Frame
+		if i := strings.LastIndex(f, "/"); i >= 0 {
+			if j := strings.Index(f[i:], "."); j >= 0 {
+				f = f[:i+j]
+			}
+		}
+		return p.Class + "@" + f
+	}
+	return p.Class + "@" + p.Frame
+}
 
 // Exec is the outcome of one simulated execution.
 type Exec struct {
